@@ -8,6 +8,8 @@ import (
 	kubeapps "k8s.io/api/apps/v1"
 	v1 "k8s.io/api/core/v1"
 	metav1 "k8s.io/apimachinery/pkg/apis/meta/v1"
+	apierrors "k8s.io/apimachinery/pkg/api/errors"
+	"k8s.io/apimachinery/pkg/runtime/schema"
 	"k8s.io/apimachinery/pkg/util/sets"
 	"k8s.io/client-go/tools/record"
 
@@ -25,7 +27,7 @@ import (
 //	  ru    none (no rollingUpdate block) | nil (block without partition) | <int>
 //	  stored  replicas,ready,current,updated,currentRev,updateRev,observedGen   (set.Status as cached)
 //	  pods  ord:phase:ready:term:rev:idOk:stOk;...     phase N(one) P R S F U ; ord -1 = name that does not parse
-//	  faults verb:ord;...    verb 0 create 1 delete 2 update 3 status-write
+//	  faults verb:ord[:kind];...    verb 0 create 1 delete 2 update 3 status-write; kind exists|conflict|notfound|timeout|invalid (typed API error)
 //	obs : acts=<create:o:rev|delete:o:id|update:o,...> status=<rep,ready,cur,upd,curRev,updRev,gen|-> written=<...|-> out=ok|err|panic
 func init() {
 	engines["reconcile"] = &Engine{Gen: genReconcile, Enum: enumReconcile, Run: runReconcile}
@@ -51,6 +53,7 @@ type rcCase struct {
 	stored   [7]string
 	pods     []rcPod
 	faults   map[string]bool
+	kinds    map[string]string // error kind per fault (default: a plain error)
 }
 
 func (c *rcCase) line() string {
@@ -60,6 +63,9 @@ func (c *rcCase) line() string {
 	}
 	var fs []string
 	for _, k := range sortedKeys(c.faults) {
+		if kind := c.kinds[k]; kind != "" {
+			k += ":" + kind
+		}
 		fs = append(fs, k)
 	}
 	return fmt.Sprintf("%d|%s|%s|%s|%s|%s|%s|%s|%d|%s|%s|%s", c.r, joinInts(c.slots), c.pol, c.strat, c.ru, c.cur, c.upd,
@@ -84,7 +90,7 @@ func parseRcCase(line string) (*rcCase, error) {
 	if len(f) != 12 {
 		return nil, fmt.Errorf("want 12 fields, got %d", len(f))
 	}
-	c := &rcCase{r: atoi(f[0]), slots: parseInts(f[1]), pol: f[2], strat: f[3], ru: f[4], cur: f[5], upd: f[6], del: f[7] == "1", gen: atoi(f[8]), faults: map[string]bool{}}
+	c := &rcCase{r: atoi(f[0]), slots: parseInts(f[1]), pol: f[2], strat: f[3], ru: f[4], cur: f[5], upd: f[6], del: f[7] == "1", gen: atoi(f[8]), faults: map[string]bool{}, kinds: map[string]string{}}
 	st := strings.Split(f[9], ",")
 	if len(st) != 7 {
 		return nil, fmt.Errorf("stored status wants 7 fields")
@@ -101,7 +107,13 @@ func parseRcCase(line string) (*rcCase, error) {
 	}
 	if f[11] != "" {
 		for _, t := range strings.Split(f[11], ";") {
-			c.faults[t] = true
+			q := strings.Split(t, ":")
+			if len(q) == 3 { // verb:ord:kind — the kind of API error the pod control returns
+				c.faults[q[0]+":"+q[1]] = true
+				c.kinds[q[0]+":"+q[1]] = q[2]
+			} else {
+				c.faults[t] = true
+			}
 		}
 	}
 	return c, nil
@@ -223,7 +235,26 @@ func mkPod(set *apps.StatefulSet, p rcPod) *v1.Pod {
 type recPodControl struct {
 	acts   []string
 	faults map[string]bool
+	kinds  map[string]string
 	ids    map[*v1.Pod]int
+}
+
+// fail returns the injected error for a faulted call: a typed API error when the fault names a kind.
+func (r *recPodControl) fail(key, what string) error {
+	gr := schema.GroupResource{Resource: "pods"}
+	switch r.kinds[key] {
+	case "exists":
+		return apierrors.NewAlreadyExists(gr, what)
+	case "conflict":
+		return apierrors.NewConflict(gr, what, fmt.Errorf("injected"))
+	case "notfound":
+		return apierrors.NewNotFound(gr, what)
+	case "timeout":
+		return apierrors.NewTimeoutError("injected", 1)
+	case "invalid":
+		return apierrors.NewInvalid(schema.GroupKind{Kind: "Pod"}, what, nil)
+	}
+	return fmt.Errorf("injected %s failure", what)
 }
 
 func ordOfName(pod *v1.Pod) int { _, o := sts.VerifGetParentNameAndOrdinal(pod); return o }
@@ -231,8 +262,8 @@ func ordOfName(pod *v1.Pod) int { _, o := sts.VerifGetParentNameAndOrdinal(pod);
 func (r *recPodControl) CreateStatefulPod(set *apps.StatefulSet, pod *v1.Pod) error {
 	o := ordOfName(pod)
 	r.acts = append(r.acts, fmt.Sprintf("create:%d:%s", o, pod.Labels[kubeapps.StatefulSetRevisionLabel]))
-	if r.faults[fmt.Sprintf("0:%d", o)] {
-		return fmt.Errorf("injected create failure")
+	if k := fmt.Sprintf("0:%d", o); r.faults[k] {
+		return r.fail(k, "create")
 	}
 	return nil
 }
@@ -240,8 +271,8 @@ func (r *recPodControl) CreateStatefulPod(set *apps.StatefulSet, pod *v1.Pod) er
 func (r *recPodControl) UpdateStatefulPod(set *apps.StatefulSet, pod *v1.Pod) error {
 	o := ordOfName(pod)
 	r.acts = append(r.acts, fmt.Sprintf("update:%d", o))
-	if r.faults[fmt.Sprintf("2:%d", o)] {
-		return fmt.Errorf("injected update failure")
+	if k := fmt.Sprintf("2:%d", o); r.faults[k] {
+		return r.fail(k, "update")
 	}
 	return nil
 }
@@ -253,8 +284,8 @@ func (r *recPodControl) DeleteStatefulPod(set *apps.StatefulSet, pod *v1.Pod) er
 		id = fmt.Sprint(i)
 	}
 	r.acts = append(r.acts, fmt.Sprintf("delete:%d:%s", o, id))
-	if r.faults[fmt.Sprintf("1:%d", o)] {
-		return fmt.Errorf("injected delete failure")
+	if k := fmt.Sprintf("1:%d", o); r.faults[k] {
+		return r.fail(k, "delete")
 	}
 	return nil
 }
@@ -317,7 +348,7 @@ func runReconcile(line string) string {
 	if c.upd != c.cur {
 		upd = mkRevision(set, c.upd)
 	}
-	pc := &recPodControl{faults: c.faults, ids: map[*v1.Pod]int{}}
+	pc := &recPodControl{faults: c.faults, kinds: c.kinds, ids: map[*v1.Pod]int{}}
 	var pods []*v1.Pod
 	for i, p := range c.pods {
 		pod := mkPod(set, p)
@@ -399,7 +430,7 @@ func genPodClass(rng *rand.Rand, ord int, cur, upd string, healthyBias int) rcPo
 }
 
 func genRcCase(rng *rand.Rand) *rcCase {
-	c := &rcCase{faults: map[string]bool{}}
+	c := &rcCase{faults: map[string]bool{}, kinds: map[string]string{}}
 	c.r = weighted(rng, 6, 12, 18, 22, 18, 12, 8)
 	// slots
 	nslots := weighted(rng, 30, 30, 20, 12, 8)
@@ -498,7 +529,11 @@ func genRcCase(rng *rand.Rand) *rcCase {
 	if rng.Intn(7) == 0 {
 		n := 1 + rng.Intn(2)
 		for i := 0; i < n; i++ {
-			c.faults[fmt.Sprintf("%d:%d", rng.Intn(3), rng.Intn(maxOrd+1))] = true
+			k := fmt.Sprintf("%d:%d", rng.Intn(3), rng.Intn(maxOrd+1))
+			c.faults[k] = true
+			if rng.Intn(2) == 0 { // a typed API error: the reconcile must treat every kind alike
+				c.kinds[k] = pick(rng, "exists", "conflict", "notfound", "timeout", "invalid")
+			}
 		}
 	}
 	if rng.Intn(25) == 0 {
@@ -547,7 +582,7 @@ func enumReconcile(scope string, emit func(string)) {
 							for _, scr := range []int{0, 2} {
 								n := len(classes)
 								for code := 0; code < n*n*n*n; code++ {
-									c := &rcCase{r: r, slots: slots, pol: pol, strat: strat, ru: ru, cur: cu[0], upd: cu[1], gen: 1, faults: map[string]bool{}}
+									c := &rcCase{r: r, slots: slots, pol: pol, strat: strat, ru: ru, cur: cu[0], upd: cu[1], gen: 1, faults: map[string]bool{}, kinds: map[string]string{}}
 									c.stored = [7]string{"0", "0", fmt.Sprint(scr), "0", cu[0], cu[1], "1"}
 									x := code
 									for o := 0; o < 4; o++ {
